@@ -11,6 +11,8 @@ import Uft.Model.TaskTxt
    task <fixed> [<nl>] <tid,tid|-> <hex> -> <ok|err|oob> open=<ok|einval|enodata> chrome=… tf0=<ok|oob> | items
    map  <fixed> [<nl>] <hex>             -> ok kb=<n> | start end prot path buildid ; …
    sym  <fixed> [<nl>] <modname hex> <hex> -> ok use=<0|1> | addr size type name ; …
+   perf <fixed> <hex>                    -> n=<k> st=<eof|oob|badsize|fuel> | type,misc,pid,tid,time ; …
+                                            (`Trunc.readPerfAll`: the events read_perf_event delivers)
    whole <info|text> <hex>               -> <hex>: the file cut at its last whole record
                                             (`InfoFile.infoWhole` / `TextScan.wholeLines`)
 -/
@@ -122,6 +124,14 @@ def sym (fixed nl : Bool) (modname bs : List UInt8) : String :=
   | .err e => "err " ++ us e
   | .oob t => "oob " ++ us t
 
+def showPStatus : Trunc.PStatus → String
+  | .eof => "eof" | .oob => "oob" | .badSize => "badsize" | .fuel => "fuel"
+
+def perf (fixed : Bool) (bs : List UInt8) : String :=
+  let r := Trunc.readPerfAll fixed bs
+  s!"n={r.1.length} st={showPStatus r.2} | " ++
+    " ; ".intercalate (r.1.map fun e => s!"{e.typ},{e.misc},{e.pid},{e.tid},{e.time}")
+
 def infoOp (f n h : String) : String :=
   match parseHexBytes h with
   | some bs => info (f == "1") (n == "1") bs
@@ -156,6 +166,10 @@ def handle (ws : List String) : String :=
   | ["map", f, n, h] => mapOp f n h
   | ["sym", f, m, h] => symOp f "0" m h
   | ["sym", f, n, m, h] => symOp f n m h
+  | ["perf", f, h] =>
+    match parseHexBytes h with
+    | some bs => perf (f == "1") bs
+    | none => "bad-op"
   | ["whole", k, h] =>
     match parseHexBytes h with
     | some bs => hx (if k == "info" then InfoFile.infoWhole bs else TextScan.wholeLines bs)
